@@ -27,6 +27,7 @@ func init() {
 			"G8 renames consider a binding supplied through a wildcard (one known finding), G9 the unused-output search visits every called pipeline, G10 declaration objects of separately compiled files are never compared for identity. " +
 			"G11 every iteration over the given ASTs that adjusts the top-level call reads Ast.Call (except where the file does not declare the callable). " +
 			"G12 top calls are deleted from the trim candidates in a later pass than the one adding children. " +
+			"G13 sets that let a loop or a recursive walk skip work are keyed by what the work depends on (declaration id, not bare name); G14 hasSideEffects recurses into every callable a pipeline calls, not only pipelines. " +
 			"NOT decided: that the edited program compiles, call-graph equality, round-trip of renames.",
 		Assumptions: commonAssumptions,
 	}
@@ -315,6 +316,8 @@ func runC19(c *an.Ctx) {
 	ruleG10(c, sp)
 	ruleG11(c)
 	ruleG12(c)
+	ruleMemoKeyL(c, "G13", true, "martian/syntax/refactoring")
+	ruleG14(c)
 
 	// ---------------- G2 ----------------
 	walkers := []struct {
